@@ -423,3 +423,77 @@ def c17(ctx):
                    "leaks are not part of the statement (LSan off)", "the failing request's call chain (backtrace + sanitizer symbolizer) is the root-cause key of a violation"]
     cov, mn = P.generic_harness_check(ctx, "C17_oom", rule, assumptions, extra_link="", exhaustive=True, min_nontrivial={"quick": 40, "thorough": 60})
     return P.finish(ctx, "fault_enumeration", cov, assumptions, mn)
+
+
+# ---------------------------------------------------------------- C18
+BUILD_JOBS.append(lambda: ck.build_harness("C18_threads", "tsan", extra_link=""))
+harness_job("C18_threads", extra_link="")
+
+
+def tsan_reports(wd):
+    """parse TSAN log files -> list of (kind, libjwt frames, text)"""
+    import re
+    reps = []
+    for f in glob.glob(os.path.join(wd, "tsan.*")):
+        txt = open(f, errors="replace").read()
+        for blk in txt.split("=================="):
+            m = re.search(r"WARNING: ThreadSanitizer: ([^\n(]+)", blk)
+            if not m:
+                continue
+            frames = []
+            for fm in re.finditer(r"#\d+ (\S+) (\S+)", blk):
+                fn, loc = fm.group(1), fm.group(2)
+                if "/libjwt/" in loc and fn not in frames:
+                    frames.append(fn)
+            reps.append((m.group(1).strip().replace(" ", "-"), frames, blk[:3000]))
+    return reps
+
+
+@P.check("C18")
+def c18(ctx):
+    """concurrency: TSan + ASan stress with seeded skew; per-thread transcripts vs sequential"""
+    rule = ("schedule sampling: rounds of 2/4/8/16 threads, each with its own builder and checker, sharing one read-only keyring with keys of every type (oct, RSA, RSA-PSS use, "
+            "P-256/384/521, secp256k1 under OpenSSL, Ed25519, Ed448), each running a seeded script of generate / verify-valid / verify-corrupted / verify-expired over those keys "
+            "with seeded start skew and inter-call spin, under the fixed fake clock; one provider per process (even workers OpenSSL, odd workers GnuTLS), never switched. The same "
+            "workload runs under ThreadSanitizer and under ASan/UBSan. Oracle: no ThreadSanitizer report whose stack contains a libjwt frame (reports without one are counted "
+            "separately), and every thread's transcript (verdicts and error flags; tokens for HS*/RS*/EdDSA; header.payload + reference-verifier validity for ECDSA/PSS) equals the "
+            "transcript of the same script run sequentially beforehand. Non-trivial = round in which calls of two threads overlapped on the same key (harness-owned atomic "
+            "counters, not used in any verdict); distinct by (seed, worker, round, provider).")
+    assumptions = ["TSan's happens-before detection reports a race whenever both accesses occur in a run; races only reachable through paths the scripts do not take are missed",
+                   "uninstrumented OpenSSL/GnuTLS/jansson internals are invisible to TSan", "schedules are sampled, not enumerated"]
+    t_exe = ck.build_harness("C18_threads", "tsan", extra_link="")
+    a_exe = ck.build_harness("C18_threads", "asan", extra_link="")
+    os.makedirs(P.OUT, exist_ok=True)
+    import tempfile
+    logd = tempfile.mkdtemp(prefix="C18-tsanlog-", dir=P.OUT)
+    tenv = {"TSAN_OPTIONS": f"log_path={logd}/tsan:halt_on_error=0:exitcode=0:report_signal_unsafe=0:history_size=4"}
+    nw_t = max(2, ck.NCPU // 2 if ctx.tier == "quick" else ck.NCPU)
+    res_t, wd_t = ck.run_workers(t_exe, ctx.pid, ctx.tier, ctx.seed, nw_t, env_extra=tenv, known=ctx.known, timeout=3000)
+    res_a, wd_a = ck.run_workers(a_exe, ctx.pid, ctx.tier, ctx.seed + 7, max(2, ck.NCPU // 2), known=ctx.known, timeout=3000)
+    P.collect_harness(ctx, res_t, t_exe, env_extra=tenv)
+    P.collect_harness(ctx, res_a, a_exe)
+    reps = tsan_reports(logd)
+    nolib = 0
+    for kind, frames, txt in reps:
+        if not frames:
+            nolib += 1
+            continue
+        sig = f"C18:tsan:{kind}:{'<'.join(frames[:3])}"
+        rp = {"tsan_report": txt, "how_to_replay": "re-run ./check.py C18 (schedule dependent); the report names both accesses"}
+        P.handle_violation(ctx, sig, "ThreadSanitizer report with libjwt frames: " + kind, rp, None)
+    m = ck.merge_stats(res_t + res_a)
+    dn = len(m["fps"]) + m["distinct_by_construction"]
+    cov = {"evaluations": m["evaluations"], "distinct_nontrivial": dn, "rule": rule, "samples": m["samples"][:8], "classes": m["classes"],
+           "tsan_reports_with_libjwt_frames": sum(1 for r in reps if r[1]), "tsan_reports_without_libjwt_frames": nolib,
+           "workers_tsan": nw_t, "workers_asan": max(2, ck.NCPU // 2)}
+    cov.update(m["extra"])
+    for d in (wd_t, wd_a, logd):
+        if not ctx.violations:
+            shutil.rmtree(d, ignore_errors=True)
+    return P.finish(ctx, "exploration", cov, assumptions, 10)
+
+
+def c18_replay(ctx, path):
+    # a saved transcript mismatch names (seed, worker, round); schedule-dependent: re-run that worker's rounds under TSan
+    return False
+REPLAYERS["C18"] = c18_replay
